@@ -165,6 +165,9 @@ func validate(n *model.Node, v jv.V, path string, out *[]Violation, depth int) {
 		for _, kv := range v.O {
 			p := n.Prop(kv.K)
 			if p != nil {
+				if kv.V.K == jv.Null && p.Default != nil {
+					continue // C09: a null defaulted property takes its default
+				}
 				if kv.V.K == jv.Null {
 					// R3: null at a declared position is accepted when the schema names
 					// null; elsewhere it is not a generated input.
